@@ -97,7 +97,7 @@ def type_shape(k: int, cls_ref: NamedType | None = None):
 
 
 # ----------------------------------------------------------------------------------------------------------- functions
-N_FUN_SHAPES = 13
+N_FUN_SHAPES = 14
 
 
 def build_function(api, owner, shape: int, names: Names, *, method_kind: int = 0, docs: bool = False,
@@ -176,6 +176,11 @@ def build_function(api, owner, shape: int, names: Names, *, method_kind: int = 0
         p(type_=UnionType([STR, NONE]), kind=PA.POSITION_ONLY, optional=True, default=None)
         p(type_=INT, kind=PA.NAME_ONLY, optional=True, default=-3)
         r(INT)
+    elif shape == 13:
+        p(type_=UnionType([LiteralType(["a"]), NONE]), optional=True, default=None)
+        p(type_=UnionType([LiteralType(["b"]), LiteralType([2]), NONE]))
+        p(type_=TupleType([STR]), kind=PA.POSITIONAL_VARARG)
+        r(UnionType([LiteralType([True]), NONE]))
     doc = f"Doc of {fname}.\n\nSecond paragraph." if docs else ""
     if fname == "__init__":
         results, result_docs = [], []
